@@ -72,6 +72,12 @@ func analyzeFn(fn *ssa.Function) *fnInfo {
 				if _, isDbg := in.(*ssa.DebugRef); isDbg {
 					continue
 				}
+				if _, isPhi := in.(*ssa.Phi); isPhi {
+					continue // a phi carries the position of the variable's declaration
+				}
+				if _, isAlloc := in.(*ssa.Alloc); isAlloc {
+					continue
+				}
 				if p := in.Pos(); p.IsValid() && p < li.minPos {
 					li.minPos = p
 				}
@@ -382,6 +388,7 @@ func (v *vc) enterLoop(fr *frame, st *state, li *loopInfo, hdrEntry map[*ssa.Bas
 	for _, ai := range v.loopAutoInv(fr, st, h, func(phi *ssa.Phi) string { return fr.vals[phi] }) {
 		v.oblige(st, "inv-init", ai.label, site, ai.term, nil)
 	}
+	v.recordLoopEntry(h, v.phiEnv(fr, h, func(phi *ssa.Phi) string { return fr.vals[phi] }), st)
 	if ls != nil {
 		env := v.phiEnv(fr, h, func(phi *ssa.Phi) string { return fr.vals[phi] })
 		for _, c := range ls.invariants {
@@ -405,6 +412,7 @@ func (v *vc) enterLoop(fr *frame, st *state, li *loopInfo, hdrEntry map[*ssa.Bas
 			}
 			nh := v.fresh(hname)
 			v.decl(nh, sort)
+			v.firstIter = append(v.firstIter, firstIterEq{pos: len(v.items), a: nh, b: v.getHeap(st, hname)})
 			n.heaps[hname] = nh
 		}
 	}
@@ -438,7 +446,9 @@ func (v *vc) enterLoop(fr *frame, st *state, li *loopInfo, hdrEntry map[*ssa.Bas
 		if !ok {
 			break
 		}
+		entryVal := fr.vals[phi]
 		fr.vals[phi] = v.havoc(phi.Name()+"."+phi.Comment, phi.Type(), n)
+		v.firstIter = append(v.firstIter, firstIterEq{pos: len(v.items), a: fr.vals[phi], b: entryVal})
 	}
 	hdrEntry[h] = st
 	for _, ai := range v.loopAutoInv(fr, n, h, func(phi *ssa.Phi) string { return fr.vals[phi] }) {
@@ -450,7 +460,9 @@ func (v *vc) enterLoop(fr *frame, st *state, li *loopInfo, hdrEntry map[*ssa.Bas
 			se := v.newSpecEnv(fr, n, h)
 			se.overrides = henv
 			t := se.evalBool(c.expr)
+			v.curOrigin = "inv:" + c.label + "@" + site
 			v.fact(n, t)
+			v.curOrigin = ""
 		}
 		if ls.decreases != nil {
 			se := v.newSpecEnv(fr, n, h)
